@@ -204,7 +204,8 @@ func VerifC16KeyCondition() {
 	invalid := []string{"P < :p", "P = :p OR S = :s", "S = :s", "P = :p AND F = :s", "NOT P = :p", "P = :p AND S = :s AND S < :t", "P <> :p", "F = :p",
 		"attribute_exists(P)", "P = :p AND contains(S, :s)", "P = :p AND S <> :s", "P = :p AND P = :s", "S = :s AND S = :p", "begins_with(P, :p)",
 		"P IN (:p)", "P BETWEEN :p AND :s", "P = :p AND size(S) > :s", "P = :p AND NOT S = :s", "P = :p AND S IN (:s)", "P = :p AND attribute_exists(S)",
-		"P = S", "P = :p AND S = F", "P = :p OR P = :s", "P = :p AND begins_with(F, :s)", "P = :p AND F BETWEEN :s AND :t", "P >= :p AND S = :s"}
+		"P = S", "P = :p AND S = F", "P = :p OR P = :s", "P = :p AND begins_with(F, :s)", "P = :p AND F BETWEEN :s AND :t", "P >= :p AND S = :s",
+		"P = :p AND S BETWEEN :s AND F", "P = :p AND S BETWEEN F AND :s", "P = :p AND begins_with(S, F)", "P = :p AND S < F", "P = F", "P = :p AND S BETWEEN :s AND S"}
 	isValid := nd.Choice("valid", 2) == 1
 	shapes := invalid
 	if isValid {
@@ -261,6 +262,46 @@ func VerifC16KeyCondition() {
 	} else {
 		nd.Reach("invalid")
 		nd.Assert(err != nil || panicked, "C16-invalid-key-condition-rejected ["+e+"]")
+	}
+	nd.Reach("end")
+}
+
+// VerifC16ProjectionNames: a #name placeholder that only the ProjectionExpression uses is a used placeholder:
+// GetItem, Query and Scan accept it (and still reject a placeholder nothing uses).
+func VerifC16ProjectionNames() {
+	c := vClient(false)
+	nd.Assert(vPut(c, vItem{"p": vS("k"), "a": vS("x")}) == nil, "setup-put")
+	names := map[string]string{"#a": "a"}
+	extra := nd.Choice("unused-name", 2) == 1
+	if extra {
+		names["#zz"] = "a"
+	}
+	proj := aws.String("#a")
+	var err error
+	var panicked bool
+	switch nd.Choice("call", 3) {
+	case 0:
+		err, panicked = vCatch(func() error {
+			_, e := c.GetItem(vCtx, &dynamodb.GetItemInput{TableName: aws.String(vTbl), Key: vItem{"p": vS("k")}, ProjectionExpression: proj, ExpressionAttributeNames: names})
+			return e
+		})
+	case 1:
+		err, panicked = vCatch(func() error {
+			_, e := c.Query(vCtx, &dynamodb.QueryInput{TableName: aws.String(vTbl), KeyConditionExpression: aws.String("p = :p"), ExpressionAttributeValues: vItem{":p": vS("k")}, ProjectionExpression: proj, ExpressionAttributeNames: names})
+			return e
+		})
+	case 2:
+		err, panicked = vCatch(func() error {
+			_, e := c.Scan(vCtx, &dynamodb.ScanInput{TableName: aws.String(vTbl), ProjectionExpression: proj, ExpressionAttributeNames: names})
+			return e
+		})
+	}
+	if extra {
+		nd.Reach("unused")
+		nd.Assert(err != nil || panicked, "C16-unused-name-next-to-a-projection-rejected")
+	} else {
+		nd.Reach("projection-only")
+		nd.Assert(err == nil && !panicked, "C16-name-used-only-by-the-projection-accepted")
 	}
 	nd.Reach("end")
 }
